@@ -268,12 +268,14 @@ pub fn dispatch(cmd: &str, name: &str, arg: &str) -> Option<String> {
     if name.starts_with("learn.") { return dispatch_schedule(cmd, name, arg); }
     if name.starts_with("validate.") { return dispatch_validate(cmd, name, arg); }
     if name == "feedback.tied" { return dispatch_tied(cmd, name, arg); }
+    if name == "objective.elementwise" { return dispatch_objective_cells(cmd, name, arg); }
     if name.starts_with("objective.") { return dispatch_objective(cmd, name, arg); }
     if name == "network.gradient" { return dispatch_netgrad(cmd, name, arg); }
     if name == "dropout.leak" { return dispatch_dropout(cmd, name, arg); }
     if name == "shapes.chain" { return dispatch_chain(cmd, name, arg); }
     if name.starts_with("feedback.") { return dispatch_feedback(cmd, name, arg); }
     if name.starts_with("reshape.") { return dispatch_reshape(cmd, name, arg); }
+    if name == "tensor.elementwise" || name == "activation.elementwise" { return dispatch_elementwise(cmd, name, arg); }
     if !["conv", "deconv", "pool"].iter().any(|p| name.starts_with(p)) { return None; }
     std::panic::set_hook(Box::new(|_| {}));
     if cmd == "run" {
@@ -1199,5 +1201,181 @@ pub fn dispatch_stopping(cmd: &str, name: &str, arg: &str) -> Option<String> {
         let a = [tol, ep, k, s];
         if let Err(e) = stopping_one(tol as i32, ep as i32, k, s) { return Some(format!("{{\"failed\":true,\"tried\":{},\"input\":{},\"detail\":{:?}}}", tried, fmt(a), e)); }
     }}}}
+    Some(format!("{{\"failed\":false,\"tried\":{}}}", tried))
+}
+
+// ------------------------------------------------------------------------------------------------ element-wise operations on non-square operands (C15, C07)
+// The executable statement of "element-wise, every rank, shape unchanged": build an operand of the given rank and extents (all extents may differ), apply the
+// real operation, and compare every cell - addressed by its nested index - with the scalar operation applied to the cells at that index (same f32 operator,
+// so equality is exact), the nesting lengths with the extents, and the shape field with the input's.
+fn nest(dims: &[usize], f: &dyn Fn(usize) -> f32) -> Tensor {
+    let mut i = 0usize;
+    let mut next = || { let v = f(i); i += 1; v };
+    match dims.len() {
+        1 => Tensor::single((0..dims[0]).map(|_| next()).collect()),
+        2 => Tensor::double((0..dims[0]).map(|_| (0..dims[1]).map(|_| next()).collect()).collect()),
+        3 => Tensor::triple((0..dims[0]).map(|_| (0..dims[1]).map(|_| (0..dims[2]).map(|_| next()).collect()).collect()).collect()),
+        _ => Tensor::quadruple((0..dims[0]).map(|_| (0..dims[1]).map(|_| (0..dims[2]).map(|_| (0..dims[3]).map(|_| next()).collect()).collect()).collect()).collect()),
+    }
+}
+/// row-major cells if the nesting lengths are exactly `dims`, else None
+fn cells(t: &Tensor, dims: &[usize]) -> Option<Vec<f32>> {
+    let mut out = Vec::new();
+    match (&t.data, dims.len()) {
+        (Data::Single(a), 1) => { if a.len() != dims[0] { return None; } out.extend(a.iter().cloned()); }
+        (Data::Double(a), 2) => { if a.len() != dims[0] { return None; } for r in a { if r.len() != dims[1] { return None; } out.extend(r.iter().cloned()); } }
+        (Data::Triple(a), 3) => { if a.len() != dims[0] { return None; } for m in a { if m.len() != dims[1] { return None; } for r in m { if r.len() != dims[2] { return None; } out.extend(r.iter().cloned()); } } }
+        (Data::Quadruple(a), 4) => { if a.len() != dims[0] { return None; } for c in a { if c.len() != dims[1] { return None; } for m in c { if m.len() != dims[2] { return None; } for r in m { if r.len() != dims[3] { return None; } out.extend(r.iter().cloned()); } } } }
+        _ => return None,
+    }
+    Some(out)
+}
+fn same_bits(a: &[f32], b: &[f32]) -> bool { a.len() == b.len() && a.iter().zip(b.iter()).all(|(x, y)| x.to_bits() == y.to_bits() || (x.is_nan() && y.is_nan())) }
+fn va(i: usize) -> f32 { ((i * 7 + 3) % 11) as f32 * 0.25 - 1.25 }
+fn vb(i: usize) -> f32 { ((i * 5 + 1) % 13) as f32 * 0.5 - 2.75 }
+fn vc(i: usize) -> f32 { ((i * 3 + 2) % 7) as f32 * 0.125 + 0.5 }
+pub fn tensor_elementwise_one(dims: &[usize]) -> Result<(), String> {
+    let n: usize = dims.iter().product();
+    let a: Vec<f32> = (0..n).map(va).collect();
+    let b: Vec<f32> = (0..n).map(vb).collect();
+    let c: Vec<f32> = (0..n).map(vc).collect();
+    let check = |what: &str, got: &Tensor, want: Vec<f32>| -> Result<(), String> {
+        if got.shape != nest(dims, &va).shape { return Err(format!("{}: the shape field changed", what)); }
+        match cells(got, dims) {
+            None => Err(format!("{}: the nesting lengths changed", what)),
+            Some(g) => if same_bits(&g, &want) { Ok(()) } else {
+                let k = (0..n).find(|&k| g[k].to_bits() != want[k].to_bits()).unwrap_or(0);
+                Err(format!("{}: cell {} (row-major) is {} but the operator on the operand cells gives {}", what, k, g[k], want[k])) },
+        }
+    };
+    let mut t = nest(dims, &va); t.add_inplace(&nest(dims, &vb)); check("add_inplace", &t, (0..n).map(|k| a[k] + b[k]).collect())?;
+    let mut t = nest(dims, &va); t.sub_inplace(&nest(dims, &vb)); check("sub_inplace", &t, (0..n).map(|k| a[k] - b[k]).collect())?;
+    let mut t = nest(dims, &va); t.mul_inplace(&nest(dims, &vb)); check("mul_inplace", &t, (0..n).map(|k| a[k] * b[k]).collect())?;
+    let mut t = nest(dims, &va); t.hadamard(&nest(dims, &vb), 0.75); check("hadamard", &t, (0..n).map(|k| a[k] * b[k] * 0.75).collect())?;
+    let mut t = nest(dims, &va); t.div_scalar_inplace(3.0); check("div_scalar_inplace", &t, (0..n).map(|k| a[k] / 3.0).collect())?;
+    let t = nest(dims, &va).clamp(-0.5, 0.75); check("clamp", &t, (0..n).map(|k| a[k].clamp(-0.5, 0.75)).collect())?;
+    let mut t = nest(dims, &va); let (o1, o2) = (nest(dims, &vb), nest(dims, &vc)); t.mean_inplace(&vec![&o1, &o2]);
+    check("mean_inplace", &t, (0..n).map(|k| (a[k] + (b[k] + c[k])) / 3.0).collect())?;
+    // operands whose shapes differ are refused
+    let mut other = dims.to_vec(); let last = other.len() - 1; other[last] += 1;
+    for op in 0..4 {
+        let d2 = other.clone(); let d1 = dims.to_vec();
+        let refused = std::panic::catch_unwind(move || { let mut t = nest(&d1, &va); let o = nest(&d2, &vb);
+            match op { 0 => t.add_inplace(&o), 1 => t.sub_inplace(&o), 2 => t.mul_inplace(&o), _ => t.hadamard(&o, 1.0) } }).is_err();
+        if !refused { return Err(format!("operation {} accepted operands of different shapes", ["add_inplace", "sub_inplace", "mul_inplace", "hadamard"][op])); }
+    }
+    Ok(())
+}
+pub fn activation_elementwise_one(dims: &[usize]) -> Result<(), String> {
+    use crate::activation::Function;
+    let n: usize = dims.iter().product();
+    let x: Vec<f32> = (0..n).map(|i| va(i) * 2.0).collect();
+    let input = nest(dims, &|i| va(i) * 2.0);
+    let alpha = 0.01f32;
+    let acts: Vec<(&str, Activation, Box<dyn Fn(f32) -> f32>, Box<dyn Fn(f32) -> f32>)> = vec![
+        ("ReLU", Activation::ReLU, Box::new(|v: f32| v.max(0.0)), Box::new(|v: f32| if v > 0.0 { 1.0 } else { 0.0 })),
+        ("LeakyReLU", Activation::LeakyReLU, Box::new(move |v: f32| if v > 0.0 { v } else { alpha * v }), Box::new(move |v: f32| if v > 0.0 { 1.0 } else { alpha })),
+        ("Sigmoid", Activation::Sigmoid, Box::new(|v: f32| 1.0 / (1.0 + f32::exp(-v))), Box::new(|v: f32| { let y = 1.0 / (1.0 + f32::exp(-v)); y * (1.0 - y) })),
+        ("Tanh", Activation::Tanh, Box::new(|v: f32| v.tanh()), Box::new(|v: f32| 1.0 / v.cosh().powi(2))),
+        ("Linear", Activation::Linear, Box::new(|v: f32| v), Box::new(|_v: f32| 1.0)),
+    ];
+    for (name, kind, f, df) in acts.iter() {
+        let fun = Function::create(kind);
+        for (dir, got, want) in [("forward", fun.forward(&input), x.iter().map(|v| f(*v)).collect::<Vec<f32>>()), ("backward", fun.backward(&input), x.iter().map(|v| df(*v)).collect::<Vec<f32>>())] {
+            if got.shape != input.shape { return Err(format!("{}::{}: the output shape differs from the input shape", name, dir)); }
+            match cells(&got, dims) {
+                None => return Err(format!("{}::{}: the nesting lengths of the output differ from the input's", name, dir)),
+                Some(g) => if !same_bits(&g, &want) {
+                    let k = (0..n).find(|&k| g[k].to_bits() != want[k].to_bits()).unwrap_or(0);
+                    return Err(format!("{}::{}: cell {} (row-major) is {} for input {}, the definition gives {}", name, dir, k, g[k], x[k], want[k])); },
+            }
+        }
+    }
+    Ok(())
+}
+pub fn dispatch_elementwise(cmd: &str, name: &str, arg: &str) -> Option<String> {
+    if std::env::var("VERIF_SHOW_PANIC").is_err() { std::panic::set_hook(Box::new(|_| {})); }
+    let act = name == "activation.elementwise";
+    let fmt = |d: &[usize]| format!("{{\"extents\":{:?}}}", d);
+    let one = move |d: Vec<usize>| -> Result<(), String> {
+        match std::panic::catch_unwind(move || if act { activation_elementwise_one(&d) } else { tensor_elementwise_one(&d) }) { Ok(r) => r, Err(_) => Err("the operation panicked on a well-formed operand".into()) }
+    };
+    if cmd == "run" {
+        let v: Vec<usize> = arg.split(|c: char| !c.is_ascii_digit()).filter(|x| !x.is_empty()).filter_map(|x| x.parse().ok()).collect();
+        if v.is_empty() || v.len() > 4 { return None; }
+        return Some(match one(v.clone()) { Ok(()) => format!("{{\"failed\":false,\"input\":{}}}", fmt(&v)), Err(e) => format!("{{\"failed\":true,\"input\":{},\"detail\":{:?}}}", fmt(&v), e) });
+    }
+    let m = if big() { 4usize } else { 3usize };
+    let mut grid: Vec<Vec<usize>> = Vec::new();
+    for a in 1..=5usize { grid.push(vec![a]); }
+    if !act { for a in 1..=m { for b in 1..=m { grid.push(vec![a, b]); } } }
+    for a in 1..=m { for b in 1..=m { for c in 1..=m { grid.push(vec![a, b, c]); } } }
+    if !act { for a in 1..=m.min(3) { for b in 1..=m.min(3) { for c in 1..=m.min(3) { for d in 1..=m.min(3) { grid.push(vec![a, b, c, d]); } } } } }
+    let mut tried = 0usize;
+    for d in grid {
+        tried += 1;
+        if let Err(e) = one(d.clone()) { return Some(format!("{{\"failed\":true,\"tried\":{},\"input\":{},\"detail\":{:?}}}", tried, fmt(&d), e)); }
+    }
+    Some(format!("{{\"failed\":false,\"tried\":{}}}", tried))
+}
+
+// ------------------------------------------------------------------------------------------------ objectives on non-square operands (C06)
+// The documented formulas evaluated cell by cell (nested index) and aggregated in index order; tolerance instead of bit equality, because the formulas are written
+// independently of the code's operator order.
+pub fn objective_cells_one(which: usize, dims: &[usize], clamp: bool) -> Result<(), String> {
+    use crate::objective::Objective::*;
+    let (name, obj) = match which { 0 => ("AE", AE), 1 => ("MAE", MAE), 2 => ("MSE", MSE), 3 => ("RMSE", RMSE), 4 => ("CrossEntropy", CrossEntropy), 5 => ("BinaryCrossEntropy", BinaryCrossEntropy), _ => ("KLDivergence", KLDivergence) };
+    let unit = which >= 4;
+    let n: usize = dims.iter().product();
+    let pv = move |i: usize| if unit { 0.05 + 0.9 * (((i * 7 + 3) % 11) as f32 / 11.0) } else { va(i) };
+    let tv = move |i: usize| if unit { if i % 4 == 0 { 0.0 } else if i % 4 == 1 { 1.0 } else { 0.1 + 0.8 * (((i * 5 + 1) % 13) as f32 / 13.0) } } else if i % 5 == 0 { va(i) } else { vb(i) };
+    let (lo, hi) = (-0.3f32, 0.4f32);
+    let f = crate::objective::Function::create(obj, if clamp { Some((lo, hi)) } else { None });
+    let (pt, tt) = (nest(dims, &pv), nest(dims, &tv));
+    let (loss, grad) = f.loss(&pt, &tt);
+    let p: Vec<f64> = (0..n).map(|i| pv(i) as f64).collect();
+    let t: Vec<f64> = (0..n).map(|i| tv(i) as f64).collect();
+    let nn = n as f64; let eps = 1e-6f64;
+    let pc: Vec<f64> = p.iter().map(|v| v.max(eps).min(1.0 - eps)).collect();
+    let sgn = |a: f64, q: f64| if a == q { 0.0 } else if a > q { -1.0 } else { 1.0 };
+    let (want_loss, want_grad): (f64, Vec<f64>) = match which {
+        0 => ((0..n).map(|k| (t[k] - p[k]).abs()).sum(), (0..n).map(|k| sgn(t[k], p[k])).collect()),
+        1 => ((0..n).map(|k| (t[k] - p[k]).abs()).sum::<f64>() / nn, (0..n).map(|k| sgn(t[k], p[k])).collect()),
+        2 => ((0..n).map(|k| (t[k] - p[k]).powi(2) / nn).sum(), (0..n).map(|k| -2.0 * (t[k] - p[k]) / nn).collect()),
+        3 => (((0..n).map(|k| (t[k] - p[k]).powi(2)).sum::<f64>() / nn).sqrt(), (0..n).map(|k| if t[k] == p[k] { 0.0 } else { -(t[k] - p[k]) / ((t[k] - p[k]).powi(2).sqrt() * nn) }).collect()),
+        4 => (-(0..n).map(|k| t[k] * pc[k].ln()).sum::<f64>(), (0..n).map(|k| p[k] - t[k]).collect()),
+        5 => (-(0..n).map(|k| t[k] * pc[k].ln() + (1.0 - t[k]) * (1.0 - pc[k]).ln()).sum::<f64>(), (0..n).map(|k| (pc[k] - t[k]) / (pc[k] * (1.0 - pc[k]))).collect()),
+        _ => ((0..n).map(|k| if t[k] == 0.0 { 0.0 } else { t[k] * (t[k] / pc[k]).ln() }).sum(), (0..n).map(|k| -t[k] / pc[k]).collect()),
+    };
+    let near = |a: f64, b: f64| (a - b).abs() <= 1e-4 + 1e-3 * a.abs().max(b.abs());
+    if !near(loss as f64, want_loss) { return Err(format!("{}: loss {} but the documented formula gives {:.6}", name, loss, want_loss)); }
+    if grad.shape != pt.shape { return Err(format!("{}: the gradient's shape differs from the prediction's", name)); }
+    let g = match cells(&grad, dims) { Some(g) => g, None => return Err(format!("{}: the gradient's nesting lengths differ from the prediction's", name)) };
+    for k in 0..n {
+        let w = if clamp { want_grad[k].max(lo as f64).min(hi as f64) } else { want_grad[k] };
+        if !near(g[k] as f64, w) { return Err(format!("{}: gradient cell {} (row-major) is {} but the documented formula{} gives {:.6} (target {}, prediction {})", name, k, g[k], if clamp { " limited to the clamp interval" } else { "" }, w, t[k], p[k])); }
+    }
+    Ok(())
+}
+pub fn dispatch_objective_cells(cmd: &str, _name: &str, arg: &str) -> Option<String> {
+    if std::env::var("VERIF_SHOW_PANIC").is_err() { std::panic::set_hook(Box::new(|_| {})); }
+    let fmt = |w: usize, c: bool, d: &[usize]| format!("{{\"objective\":{},\"clamp\":{},\"extents\":{:?}}}", w, c, d);
+    let one = |w: usize, c: bool, d: Vec<usize>| -> Result<(), String> {
+        match std::panic::catch_unwind(move || objective_cells_one(w, &d, c)) { Ok(r) => r, Err(_) => Err("loss() panicked on operands of equal shape".into()) }
+    };
+    if cmd == "run" {
+        let v: Vec<usize> = arg.replace("true", "1").replace("false", "0").split(|c: char| !c.is_ascii_digit()).filter(|x| !x.is_empty()).filter_map(|x| x.parse().ok()).collect();
+        if v.len() < 3 || v.len() > 5 { return None; }
+        let d = v[2..].to_vec();
+        return Some(match one(v[0], v[1] != 0, d.clone()) { Ok(()) => format!("{{\"failed\":false,\"input\":{}}}", fmt(v[0], v[1] != 0, &d)), Err(e) => format!("{{\"failed\":true,\"input\":{},\"detail\":{:?}}}", fmt(v[0], v[1] != 0, &d), e) });
+    }
+    let m = if big() { 4usize } else { 3usize };
+    let mut grid: Vec<Vec<usize>> = (1..=5usize).map(|a| vec![a]).collect();
+    for a in 1..=m { for b in 1..=m { for c in 1..=m { grid.push(vec![a, b, c]); } } }
+    let mut tried = 0usize;
+    for w in 0..7usize { for c in [false, true] { for d in &grid {
+        tried += 1;
+        if let Err(e) = one(w, c, d.clone()) { return Some(format!("{{\"failed\":true,\"tried\":{},\"input\":{},\"detail\":{:?}}}", tried, fmt(w, c, d), e)); }
+    }}}
     Some(format!("{{\"failed\":false,\"tried\":{}}}", tried))
 }
